@@ -182,6 +182,11 @@ func (v *amf0UTF8) UnmarshalBinary(data []byte) (err error) {
 }
 
 func (v *amf0UTF8) MarshalBinary() (data []byte, err error) {
+	// The length is 16 bits, never write a longer string with a wrapped length.
+	if len(*v) > 0xffff {
+		return nil, oe.Errorf("string of %v bytes exceeds the 16 bits length", len(*v))
+	}
+
 	data = make([]byte, v.Size())
 
 	size := uint16(len(string(*v)))
